@@ -21,13 +21,13 @@ TEXTS = {
         technique="property-based testing (rapid) with analytic validity predicates (accuracy, containment, monotonicity) on edge-focused generated floats",
     ),
     'C04': dict(
-        text="Model-based stateful property testing: one rapid state machine per non-collapsing store kind generates histories over Add/AddWithCount/AddBin/bursts/MergeWith(any of 5 kinds)/Copy/Clear/Reweight/Encode+Decode/ToProto+MergeWithProto and compares, after every step, the complete public observation (emptiness, total, min/max index, ForEach, Bins(), KeyAtRank at every cumulative boundary +- half a quantum) bit-for-bit with the mathematical index->weight map; dyadic bounded weights make every float sum exact so no tolerance is needed. The layout hook counts structural events (array shift/grow, page creation, left extension, compaction) so that evidence shows they were exercised. Further generators: no-read windows (several mutations incl. clear/merge/reweight between observations, clear-and-refill to the same size), large-scale workloads (tens of thousands of additions, then a series of merges with a drifting hot region), structured paginated states combined by merge/decode/protobuf, and wide-range weights (units next to 2^53..2^200) judged per bin against 400-bit arithmetic.",
+        text="Model-based stateful property testing: one rapid state machine per non-collapsing store kind generates histories over Add/AddWithCount/AddBin/bursts/MergeWith(any of 5 kinds)/Copy/Clear/Reweight/Encode+Decode/ToProto+MergeWithProto and compares, after every step, the complete public observation (emptiness, total, min/max index, ForEach, Bins(), KeyAtRank at every cumulative boundary +- half a quantum) bit-for-bit with the mathematical index->weight map; dyadic bounded weights make every float sum exact so no tolerance is needed. The layout hook counts structural events (array shift/grow, page creation, left extension, compaction) so that evidence shows they were exercised. Further generators: no-read windows (several mutations incl. clear/merge/reweight between observations, clear-and-refill to the same size), large-scale workloads (tens of thousands of additions, then a series of merges with a drifting hot region), structured paginated states combined by merge/decode/protobuf, and wide-range weights (units next to 2^53..2^200) judged per bin against 400-bit arithmetic. A second machine (decay machine, DESIGN 7.13) models partial underflow exactly: weights on levels 2^(600k) so that a reweighting makes some bins exactly 0 while others survive, with the history going on afterwards. Hand-built protobuf messages (zeros, long runs, both forms) are merged into every kind.",
         design_ref="DESIGN.md §2 C04, §1.1",
         note="Trusted: model.Map (a Go map with sorted iteration), the exactness budget. Index spans capped per store kind by memory (dense 2^14..2^18, paginated 2^18, sparse 2^30). Sampling of histories up to ~120 steps.",
         technique="stateful model-based property testing (rapid state machine) against an exact map model",
     ),
     'C05': dict(
-        text="Model-based stateful property testing on both collapsing stores with N from 1 to 2048 (histories include weights reweighted until they underflow to exactly 0, after which the store must behave as an empty one: repaired finding F8): after every step the observation must equal fold(M,N) of the exact unfolded content, with bins <= N, span <= N, total conserved and (hook) allocated length <= N; merge arguments of all kinds and independent bin limits, including wide same-kind arguments into empty/cleared receivers (the shape of repaired finding F1). A sketch-level generator checks alpha-accuracy of every quantile whose floor/ceil order statistics lie in retained bins; large-scale workloads and wide-range weights (per-bin comparison against 400-bit arithmetic) as in C04.",
+        text="Model-based stateful property testing on both collapsing stores with N from 1 to 2048 (histories include weights reweighted until they underflow to exactly 0, after which the store must behave as an empty one: repaired finding F8): after every step the observation must equal fold(M,N) of the exact unfolded content, with bins <= N, span <= N, total conserved and (hook) allocated length <= N; merge arguments of all kinds and independent bin limits, including wide same-kind arguments into empty/cleared receivers (the shape of repaired finding F1). A sketch-level generator checks alpha-accuracy of every quantile whose floor/ceil order statistics lie in retained bins; large-scale workloads and wide-range weights (per-bin comparison against 400-bit arithmetic) as in C04. The decay machine (DESIGN 7.13) continues histories after a reweighting emptied bins at either end of the range (repaired findings F18, F21), with a mirror model of the collapsed state and every observer compared after every step.",
         design_ref="DESIGN.md §2 C05",
         note="Trusted: the fold model (history independence of folding is itself exercised: any dependence shows up as a mismatch). Sketch-level clause asserts accuracy only when both candidate order statistics are retained.",
         technique="stateful model-based property testing (rapid state machine) against fold(exact map, N); generated sketch-level accuracy cases",
@@ -69,7 +69,7 @@ TEXTS = {
         technique="property-based round-trip testing (rapid) with exact model and proto.Equal differential between streaming and in-memory writers",
     ),
     'C10': dict(
-        text="Model-based stateful property testing of the exact-summary variant with a plain twin: generated histories over adds (incl. weight 0 and rejected values), merges (incl. refused ones, with a mismatching mapping), decode-merges, copies, clears, reweights, encode/decode and up to three ChangeMapping unit changes; after every step count, emptiness, min and max must equal the exact statistics of the absorbed (value, weight) list bit for bit, the sum must be within a derived few-ulp bound of the arbitrary-precision reference, every quantile must lie in [min,max], and while the state is dyadic every quantile must equal clamp(plain twin's answer, min, max) exactly.",
+        text="Model-based stateful property testing of the exact-summary variant with a plain twin: generated histories over adds (incl. weight 0 and rejected values), merges (incl. refused ones, with a mismatching mapping), decode-merges, copies, clears, reweights, encode/decode and up to three ChangeMapping unit changes; after every step count, emptiness, min and max must equal the exact statistics of the absorbed (value, weight) list bit for bit, the sum must be within a derived few-ulp bound of the arbitrary-precision reference, every quantile must lie in [min,max], and while the state is dyadic every quantile must equal clamp(plain twin's answer, min, max) exactly. Long chains (thousands of additions, merges into fresh sketches, copies) hold the exact sum to a fixed 4 ulps; an underflow probe checks that a sketch none of whose bins holds anything is empty for the statistics too (F17, F22); merges between totals 2^53 and more apart are judged on extremes and clamping only.",
         design_ref="DESIGN.md §2 C10, §1.1",
         note="Trusted: big.Float reference sum; plain twin for un-clamped answers. Compensated vs naive summation cannot be told apart within the bound except on cancellation-heavy inputs (weak spot, DESIGN §5).",
         technique="stateful model-based property testing (rapid state machine) with an exact statistics model and a differential plain twin",
@@ -81,7 +81,7 @@ TEXTS = {
         technique="property-based testing (rapid) against an exact cumulative-weight model",
     ),
     'C12': dict(
-        text="Generated-input search against an exact model for histories (adds, merges, decode-merges, copies, clears, encode/decode) with generator-forced data shapes (all-negative, all-zero, zero+negative, single value, sub-minimum only, mixed) on all five store kinds: count/zero count/emptiness exact, min/max equal to the extreme model bin's representative and alpha-close to the true extremes, monotone quantiles inside [min,max], batch == singles, invalid batch refused, alpha-accurate sum for same-signed data, iteration yields exactly the model's positive-weight entries and stops after exactly k callbacks for every k.",
+        text="Generated-input search against an exact model for histories (adds, merges, decode-merges, copies, clears, encode/decode) with generator-forced data shapes (all-negative, all-zero, zero+negative, single value, sub-minimum only, mixed) on all five store kinds: count/zero count/emptiness exact, min/max equal to the extreme model bin's representative and alpha-close to the true extremes, monotone quantiles inside [min,max], batch == singles, invalid batch refused, alpha-accurate sum for same-signed data, iteration yields exactly the model's positive-weight entries and stops after exactly k callbacks for every k. Non-dyadic weights in shuffled order are judged on what must hold whatever the rounding: ordered answers for quantiles that are adjacent floats around every cumulative weight, batch == single, answers inside [min,max]; after a partial underflow the extremes and emptiness speak of the bins iteration still yields (F18).",
         design_ref="DESIGN.md §2 C12",
         note="Trusted: skModel (per-side maps + value list), fold model for collapsing stores. Accuracy w.r.t. raw values only asserted when no collapsing store took part.",
         technique="property-based testing (rapid) with shape-forcing generators against an exact model and coherence predicates",
@@ -93,7 +93,7 @@ TEXTS = {
         technique="property-based testing (rapid) with a contract-derived expected outcome and before/after observation equality",
     ),
     'C14': dict(
-        text="Model-based stateful property testing over a population of 1-4 live objects (sketches of one variant with per-object store kinds, or stores of the five kinds), each with its own exact model: mutations hit one object, read-only operations (all observers, early-stopped iteration, ToProto, EncodeProto, Encode, Copy, being a merge argument, being a ChangeMapping receiver, store-level Bins/KeyAtRank/ToProto/Encode) hit one object; after every action every object must equal its model and every non-target object must have exactly its previous observation, which exposes impure reads and aliasing between copies. A twin generator applies the same mutations to two sketches, reads one of them at generated points with every kind of read-only operation and never looks at the other before the end: they must then answer identically.",
+        text="Model-based stateful property testing over a population of 1-4 live objects (sketches of one variant with per-object store kinds, or stores of the five kinds), each with its own exact model: mutations hit one object, read-only operations (all observers, early-stopped iteration, ToProto, EncodeProto, Encode, Copy, being a merge argument, being a ChangeMapping receiver, store-level Bins/KeyAtRank/ToProto/Encode) hit one object; after every action every object must equal its model and every non-target object must have exactly its previous observation, which exposes impure reads and aliasing between copies. A twin generator applies the same mutations to two sketches, reads one of them at generated points with every kind of read-only operation and never looks at the other before the end: they must then answer identically. The decay machine run with a look at the store after one step in three only checks that nothing a read leaves behind (a cache, a sorted buffer) survives later mutations wrongly.",
         design_ref="DESIGN.md §2 C14",
         note="Trusted: per-object models; layout hook only for the non-triviality label (read on a paginated store holding buffered entries).",
         technique="stateful model-based property testing (rapid state machine) over a multi-object population with before/after observation equality",
